@@ -64,6 +64,12 @@ structure LS where
   st : Nat → LState
   runs : List Nat
 
+/-- The tail of the `Thunk` branch for a body `n + force L_j`: `p` is what the inner force gave. -/
+def finishAdd (k : Nat) (n : Int) (p : LS × FRes) : LS × FRes :=
+  match p.2 with
+  | .ok v => ({ st := upd p.1.st k (.value (v + n)), runs := p.1.runs }, .ok (v + n))
+  | _ => p
+
 /-- lazy.rs:98 `force`, called by green thread `tid` on lazy `k`.
     * `Thunk` (lazy.rs:107-148): the state becomes `Blackhole(tid, None)`, the thunk is called;
       success stores `Value` (and fires the waiters); FAILURE RETURNS THE ERROR AND LEAVES THE BLACKHOLE
@@ -76,17 +82,14 @@ def force (d : Decls) : Nat → Nat → Nat → LS → LS × FRes
   | fuel + 1, tid, k, s =>
     match s.st k with
     | .thunk =>
-      let s1 : LS := { st := upd s.st k (.blackhole tid false), runs := k :: s.runs }
       match d k with
-      | .val v => ({ s1 with st := upd s1.st k (.value v) }, .ok v)
-      | .boom => (s1, .err .boom)
+      | .val v => ({ st := upd (upd s.st k (.blackhole tid false)) k (.value v), runs := k :: s.runs }, .ok v)
+      | .boom => ({ st := upd s.st k (.blackhole tid false), runs := k :: s.runs }, .err .boom)
       | .add j n =>
-        match force d fuel tid j s1 with
-        | (s2, .ok v) => ({ s2 with st := upd s2.st k (.value (v + n)) }, .ok (v + n))
-        | (s2, r) => (s2, r)
+        finishAdd k n (force d fuel tid j { st := upd s.st k (.blackhole tid false), runs := k :: s.runs })
     | .blackhole o _ =>
       if o = tid then (s, .err .loop)
-      else ({ s with st := upd s.st k (.blackhole o true) }, .pending)
+      else ({ st := upd s.st k (.blackhole o true), runs := s.runs }, .pending)
     | .value v => (s, .ok v)
 
 /-! The repaired `force` (suggested fix for D8): a failure is recorded in the cell (and the waiters
@@ -104,23 +107,25 @@ structure LSF where
   st : Nat → LStateF
   runs : List Nat
 
+def finishAddF (k : Nat) (n : Int) (p : LSF × FRes) : LSF × FRes :=
+  match p.2 with
+  | .ok v => ({ st := upd p.1.st k (.value (v + n)), runs := p.1.runs }, .ok (v + n))
+  | .err e => ({ st := upd p.1.st k (.failed e), runs := p.1.runs }, .err e)
+  | _ => p
+
 def forceFixed (d : Decls) : Nat → Nat → Nat → LSF → LSF × FRes
   | 0, _, _, s => (s, .nofuel)
   | fuel + 1, tid, k, s =>
     match s.st k with
     | .thunk =>
-      let s1 : LSF := { st := upd s.st k (.blackhole tid false), runs := k :: s.runs }
       match d k with
-      | .val v => ({ s1 with st := upd s1.st k (.value v) }, .ok v)
-      | .boom => ({ s1 with st := upd s1.st k (.failed .boom) }, .err .boom)
+      | .val v => ({ st := upd (upd s.st k (.blackhole tid false)) k (.value v), runs := k :: s.runs }, .ok v)
+      | .boom => ({ st := upd (upd s.st k (.blackhole tid false)) k (.failed .boom), runs := k :: s.runs }, .err .boom)
       | .add j n =>
-        match forceFixed d fuel tid j s1 with
-        | (s2, .ok v) => ({ s2 with st := upd s2.st k (.value (v + n)) }, .ok (v + n))
-        | (s2, .err e) => ({ s2 with st := upd s2.st k (.failed e) }, .err e)
-        | (s2, r) => (s2, r)
+        finishAddF k n (forceFixed d fuel tid j { st := upd s.st k (.blackhole tid false), runs := k :: s.runs })
     | .blackhole o _ =>
       if o = tid then (s, .err .loop)
-      else ({ s with st := upd s.st k (.blackhole o true) }, .pending)
+      else ({ st := upd s.st k (.blackhole o true), runs := s.runs }, .pending)
     | .value v => (s, .ok v)
     | .failed e => (s, .err e)
 
@@ -191,7 +196,7 @@ inductive TSt where
   | ready (ops : List Op)   -- spawned or suspended at a `yield`, remaining operations
   | blocked                 -- inside a `force` future that will never be fired
   | done                    -- body finished: one frame left (thread.rs:1266)
-  | failed                  -- body ended with an error; frames are left on its stack
+  | failed (e : FErr)       -- body ended with an error; frames are left on its stack
   deriving Repr, Inhabited
 
 /-- An observation: thread, kind, two arguments (the same numbers the harness' `ev` primitive logs). -/
@@ -273,7 +278,8 @@ def runOps (d : Decls) : Nat → Nat → List Op → St → St × Out
     | .resume t =>
       match s.th t with
       | .done => runOps d fuel tid rest (s.emit ⟨tid, 12, t, 0⟩)          -- Error::Dead ⇒ Err
-      | .failed => (s, .panic)
+      | .failed .boom => (s, .panic)                                          -- stack.rs:457 assert_pop: re-runs the `error` frame
+      | .failed .loop => runOps d fuel tid rest (s.emit ⟨tid, 11, t, 0⟩)   -- top frame = `force` InPoll ⇒ execute returns ⇒ Ok ()
       | .blocked => runOps d fuel tid rest (s.emit ⟨tid, 11, t, 0⟩)       -- Pending ⇒ Ok ()
       | .ready ops =>
         match runOps d fuel t ops s with
@@ -281,7 +287,7 @@ def runOps (d : Decls) : Nat → Nat → List Op → St → St × Out
         | (s1, .yielded r) =>
           runOps d fuel tid rest ({ s1 with th := upd s1.th t (.ready r) }.emit ⟨tid, 11, t, 0⟩)
         | (s1, .blocked) => runOps d fuel tid rest ({ s1 with th := upd s1.th t .blocked }.emit ⟨tid, 11, t, 0⟩)
-        | (s1, .failed e) => runOps d fuel tid rest ({ s1 with th := upd s1.th t .failed }.emit ⟨tid, 13, t, e.code⟩)
+        | (s1, .failed e) => runOps d fuel tid rest ({ s1 with th := upd s1.th t (.failed e) }.emit ⟨tid, 13, t, e.code⟩)
         | (s1, .panic) => (s1, .panic)
         | (s1, .nofuel) => (s1, .nofuel)
 
